@@ -21,6 +21,13 @@ def q0_matrix(n, kind):
             Q[0][0] = Fr(-1); b = 1
         for i in range(b, n):
             Q[i][i] = Fr(1)
+    elif kind == 'dense237':   # a 3x3 orthogonal matrix without zero or equal-magnitude entries in a column: every pivot order (also the
+        D = [[2, 3, 6], [3, -6, 2], [6, 2, -3]]      # 3-cycles, which are not their own inverse) is reachable by the pivot search
+        for i in range(min(3, n)):
+            for j in range(min(3, n)):
+                Q[i][j] = Fr(D[i][j], 7)
+        for i in range(3, n):
+            Q[i][i] = Fr(1)
     elif kind == 'hadamard':
         H = [[1, 1, 1, 1], [1, -1, 1, -1], [1, 1, -1, -1], [1, -1, -1, 1]]
         b = 0
@@ -102,7 +109,7 @@ def mk(t, n, kind, strat='MGSR', det=False):
     return Witness('qr_%s_%s_%s_%d%s' % (t, strat, kind, n, '_det' if det else ''), fam, {'type': t, 'n': n, 'q0': kind, 'strategy': strat, 'det': det}, wit, pre, regions, stages, obl, extra={'poly_cap': 400000, 'max_ms': 20000})
 
 
-def mk_pivoted(t, n, kind, enc):
+def mk_pivoted(t, n, kind, enc, arg='tensor'):
     """qr<MGSRPiv>(A,Q,R,P) on A = Q0*R0 with the pivot search interpreted symbolically: in every case of the search the row-permuted
     input is (Pi Q0) R0, so by uniqueness R == R0, Q(i,:) == Q0(P(i),:), and P is a bijection (vector) / permutation matrix"""
     ct = CTYPE[t]; tt = tensor_t(t, [n, n])
@@ -115,7 +122,8 @@ def mk_pivoted(t, n, kind, enc):
            'for(int i=0;i<%d;i++) for(int j=0;j<%d;j++){ %s s=0; for(int k=0;k<=j;k++) s = s + Q0[i*%d+k]*Re[k*%d+j]; A[i*%d+j]=s; } }'
            % (ct, ct, ct, ct, ct, n, n, n, n, ct, n, n, ct, n, n, n))
     Pt = 'Tensor<size_t,%d>' % n if enc == 'V' else tt
-    wit = 'extern "C" void @W@(const %s& A, %s& Q, %s& R, %s& P){ qr<QRCompType::MGSRPiv>(A, Q, R, P); }' % (tt, tt, tt, Pt)
+    # the overloads taking an expression evaluate it and pivot the temporary in place (a different helper from the tensor overloads)
+    wit = 'extern "C" void @W@(const %s& A, %s& Q, %s& R, %s& P){ qr<QRCompType::MGSRPiv>(%s, Q, R, P); }' % (tt, tt, tt, Pt, 'A' if arg == 'tensor' else 'A+0')
     if enc == 'V':
         post = ('extern "C" void @R@post(const %s* Q0, const %s* Q, const unsigned long* P, %s* D, long* B){ for(int i=0;i<%d;i++) for(int j=0;j<%d;j++) D[i*%d+j] = Q[i*%d+j] - Q0[P[i]*%d+j]; '
                 'for(int i=0;i<%d;i++){ long c=0; for(int j=0;j<%d;j++) c += (P[j]==(unsigned long)i); B[i] = c - 1; } }' % (ct, ct, ct, n, n, n, n, n, n, n))
@@ -130,7 +138,7 @@ def mk_pivoted(t, n, kind, enc):
                treg('A', t, [n, n], 'in', init='undef'), rreg('Re', t, n * n), treg('Q', t, [n, n], 'out'), treg('R', t, [n, n], 'out'), preg, rreg('D', t, n * n), breg]
     stages = [{'mod': 'ref', 'fn': '@R@pre', 'args': ['Q0', 'rd', 'ru', 'A', 'Re']}, {'mod': 'wit', 'fn': '@W@', 'args': ['A', 'Q', 'R', 'P']}, {'mod': 'ref', 'fn': '@R@post', 'args': ['Q0', 'Q', 'P', 'D', 'B']}]
     obl = [{'kind': 'equal', 'a': 'R', 'b': 'Re', 'cells': n * n, 'mode': 'ALG'}, {'kind': 'zero', 'region': 'D', 'cells': n * n}, {'kind': 'zero', 'region': 'B', 'cells': bn}]
-    return Witness('qrpiv_%s_%s_%s_%d' % (t, enc, kind, n), 'qr.MGSRPiv.' + enc + '.' + kind, {'type': t, 'n': n, 'q0': kind, 'strategy': 'MGSRPiv', 'enc': enc}, wit, pre + '\n' + post, regions, stages, obl,
+    return Witness('qrpiv_%s_%s_%s_%d%s' % (t, enc, kind, n, '' if arg == 'tensor' else '_expr'), 'qr.MGSRPiv.' + enc + '.' + kind + ('' if arg == 'tensor' else '.expr'), {'type': t, 'n': n, 'q0': kind, 'strategy': 'MGSRPiv', 'enc': enc, 'arg': arg}, wit, pre + '\n' + post, regions, stages, obl,
                    extra={'poly_cap': 400000, 'max_ms': 300000})
 
 
@@ -177,10 +185,12 @@ def witnesses(tier, seed):
             W.append(mk_structure(t, n))
         # the pivoted form end to end (symbolic pivot search): both permutation encodings
         for enc in ('V', 'M'):
-            for (n, kind) in [(2, 'identity'), (2, 'rot345'), (3, 'rot345'), (3, 'identity')] + ([] if quick else [(3, 'rot51213'), (4, 'hadamard')]):
+            for (n, kind) in [(2, 'identity'), (2, 'rot345'), (3, 'rot345'), (3, 'identity'), (3, 'dense237')] + ([] if quick else [(3, 'rot51213'), (4, 'hadamard')]):
                 if t == 'f32' and ((quick and n > 2) or n > 3):
                     continue     # n = 4 in single precision exceeds the budget of the case split (decided in double precision)
                 W.append(mk_pivoted(t, n, kind, enc))
+                if kind in ('rot345', 'dense237') and t == 'f64':
+                    W.append(mk_pivoted(t, n, kind, enc, arg='expr'))
     return group_sort(W)
 
 
